@@ -11,7 +11,7 @@
      convert_expr_to_pddl            "0" when everything was dropped
    Definitions only. *)
 From Coq Require Import List String Ascii Bool ZArith QArith Qabs Qround DecimalString.
-From Verif Require Import Base.Result Base.Str Base.Sexp Model.Tokenizer Spec.Layout Spec.Poly.
+From Verif Require Import Base.Result Base.Str Base.Sexp Model.Tokenizer Spec.Poly.
 Import ListNotations.
 Open Scope string_scope.
 Open Scope list_scope.
@@ -333,7 +333,8 @@ Definition fluents_in (expression : string) : list string :=
 (* "(" name blanks / arguments ")": atom characters and blanks between one pair of parentheses, the first token a name.
    Hypothesis of C13_glue_readback on the keys of a symbol table; proved for the tables transform_map builds
    (C13_symbol_table_shape) and checked on every symbol table the library handed to convert_expr_to_pddl in a run. *)
-Definition inner_char (c : ascii) : bool := atom_char c || is_ws c.
+(* (an atom character or a blank: anything but a parenthesis and the comment character) *)
+Definition inner_char (c : ascii) : bool := negb (is_paren c) && negb (Ascii.eqb c SEMI).
 Definition inner_of (t : string) : text := removelast (tl (s2t t)).
 Definition fl_tokens (t : string) : list string := tokenize MStr (inner_of t).
 
